@@ -234,13 +234,38 @@ def task_iterate(args):
 HARD_LIMIT = 150  # seconds per task before the worker process is killed (a hang that ignores signals)
 
 
-def _worker_main(task, items, indices, conn):
+def _isolated(task, item):
+    """run task(item) in a forked child of this worker: the task starts from the state of a process that has imported
+    pyrefact and done nothing else (exact histories)"""
+    import pickle
+
+    r, w = os.pipe()
+    pid = os.fork()
+    if pid == 0:
+        try:
+            os.close(r)
+            try:
+                res = task(item)
+            except BaseException as e:  # noqa: BLE001
+                res = {"status": "exc:" + type(e).__name__, "detail": repr(e)[:300]}
+            with os.fdopen(w, "wb") as fh:
+                pickle.dump(res, fh)
+        finally:
+            os._exit(0)
+    os.close(w)
+    with os.fdopen(r, "rb") as fh:
+        data = fh.read()
+    os.waitpid(pid, 0)
+    return pickle.loads(data) if data else {"status": "crash", "detail": "isolated child died"}
+
+
+def _worker_main(task, items, indices, conn, isolate=False):
     try:
         _init_worker()
         for i in indices:
             conn.send((i, "start", None))
             try:
-                res = task(items[i])
+                res = _isolated(task, items[i]) if isolate else task(items[i])
             except BaseException as e:  # noqa: BLE001
                 res = {"status": "exc:" + type(e).__name__, "detail": repr(e)[:300]}
             conn.send((i, "done", res))
@@ -249,7 +274,7 @@ def _worker_main(task, items, indices, conn):
         conn.close()
 
 
-def pmap(task, items, chunksize=None, workers=None, hard_limit=HARD_LIMIT):
+def pmap(task, items, chunksize=None, workers=None, hard_limit=HARD_LIMIT, isolate=True):
     """Run task(item) for every item in forked worker processes.  A task that exceeds `hard_limit` seconds has its
     worker killed and the result {'status': 'hang'}; the remaining items of that worker are re-dispatched."""
     import time
@@ -268,7 +293,7 @@ def pmap(task, items, chunksize=None, workers=None, hard_limit=HARD_LIMIT):
         if not indices:
             return
         r, w = ctx.Pipe(duplex=False)
-        p = ctx.Process(target=_worker_main, args=(task, items, indices, w), daemon=True)
+        p = ctx.Process(target=_worker_main, args=(task, items, indices, w, isolate), daemon=True)
         p.start()
         w.close()
         live[r] = {"proc": p, "todo": list(indices), "current": None, "since": time.time()}
